@@ -91,7 +91,10 @@ class Impl:
         self.classes = {}
         for i, ev in enumerate(EVENTS):
             qual = {0: ev, 1: "Msg." + ev, 2: "make_messages.<locals>." + ev}[i % 3]
-            self.classes[ev] = type(ev, (), {"__qualname__": qual})
+            # every other class derives from an earlier message class (`class MoveFast(Move)`): a handler bound to the base class
+            # is NOT a handler for the derived one - routing is by the message's own class
+            bases = (self.classes[EVENTS[i - 1]],) if i % 2 == 1 else ()
+            self.classes[ev] = type(ev, bases, {"__qualname__": qual})
             if i % 3 == 1:
                 setattr(Msg, ev, self.classes[ev])
         self.raise_next = None      # the exception object the next invoked handler raises (after logging the call)
